@@ -151,190 +151,223 @@ Definition eq_one (x : number) : bool := SE.Expr.Cmp.num_eqb x (NInt 1).
 Definition mulnum_ (x y : number) : res number :=
   if eq_one x then Ok y else if eq_one y then Ok x else num_mul x y.
 
-(* iaddnum(outArg(coeff), v) *)
-Definition x_addnum (st : xst) (v : res number) : res xst :=
-  do x <- v; do c <- num_add (fst st) x; Ok (c, snd st).
-(* Add::dict_add_term(d_, c, t) *)
-Definition x_dat (st : xst) (c : res number) (t : expr) : res xst :=
-  do x <- c; do d <- add_dict_add_term (snd st) x t; Ok (fst st, d).
+(* The library calls made by the visitor.  [real_ops] are their transcriptions; the visitor is written
+   against the record so that the theorems can also run it with every call guarded by the precondition
+   of the theorem about that call (C09/ExpandGuards.v, [guarded_ops]). *)
+Record xops := {
+  o_mul : expr -> expr -> res expr;                                  (* mul(a, b) *)
+  o_pow : expr -> expr -> res expr;                                  (* pow(a, b) *)
+  o_div : expr -> expr -> res expr;                                  (* div(a, b) *)
+  o_datn : number * mdict -> expr -> expr -> res (number * mdict);   (* Mul::dict_add_term_new(coef, d, exp, t) *)
+  o_mdat : mdict -> expr -> expr -> res mdict;                       (* Mul::dict_add_term(d, exp, t) *)
+  o_mfd : number -> mdict -> res expr;                               (* Mul::from_dict(coef, d) *)
+  o_afd : number -> adict -> res expr;                               (* Add::from_dict(coef, d) *)
+  o_mulnum : number -> number -> res number;                         (* _mulnum(x, y) *)
+  o_nummul : number -> number -> res number;                         (* mulnum(x, y) *)
+  o_numpow : number -> number -> res number;                         (* pownum(x, y) *)
+  o_intpow : Z -> Z -> res number;                                   (* Integer::powint *)
+  o_addnum : number -> number -> res number;                         (* addnum(x, y) *)
+  o_dat : adict -> number -> expr -> res adict;                      (* Add::dict_add_term(d, coef, t) *)
+  o_multinomial : N -> N -> res rmap                                 (* multinomial_coefficients_mpz(m, n, r) *)
+}.
 
-(* _coef_dict_add_term(c, term) *)
-Definition x_cdat (st : xst) (c : number) (term : expr) : res xst :=
-  match term with
-  | ENum n => x_addnum st (mulnum_ c n)
-  | EAdd tc td =>
-      do st' <- fold_res (fun s q => x_dat s (mulnum_ (snd q) c) (fst q)) td st;
-      x_addnum st' (mulnum_ tc c)
-  | _ =>
-      let ct := as_coef_term term in
-      x_dat st (mulnum_ c (fst ct)) (snd ct)
-  end.
-
-(* "if (is_a_Number( *term )) ... else { if (is_a<Mul>( *term ) && !coef->is_one()) tidy up ... }":
-   [cn] is the coefficient used in the Number and tidy branches, [cd] the one of the plain branch
-   (the C++ multiplies the same numbers in a different order) *)
-Definition x_add_product (st : xst) (cn cd : res number) (term : expr) : res xst :=
-  match term with
-  | ENum tn => x_addnum st (do c <- cn; mulnum_ c tn)
-  | EMul mc md =>
-      if negb (num_is_one mc) then x_dat st (do c <- cn; mulnum_ c mc) (mul_from_dict (NInt 1) md)
-      else x_dat st cd term
-  | _ => x_dat st cd term
-  end.
-
-(* mul_expand_two(a, b) with both operands Add *)
-Definition x_mul_add_add (st : xst) (multiply : number) (ca : number) (da : adict) (cb : number) (db : adict)
-  : res xst :=
-  do st0 <- x_addnum st (do cc <- mulnum_ ca cb; mulnum_ multiply cc);
-  do st1 <- fold_res (fun s p =>
-              do temp <- mulnum_ (snd p) multiply;
-              do s' <- fold_res (fun s q =>
-                         do term <- a_mul (fst p) (fst q);
-                         let tq := mulnum_ temp (snd q) in
-                         x_add_product s tq tq term) db s;
-              x_dat s' (mulnum_ cb temp) (fst p)) da st0;
-  do temp <- mulnum_ ca multiply;
-  fold_res (fun s q => x_dat s (mulnum_ temp (snd q)) (fst q)) db st1.
-
-(* mul_expand_two(a, b) with b an Add and a not *)
-Definition x_mul_other_add (st : xst) (multiply : number) (a : expr) (cb : number) (db : adict) : res xst :=
-  let ct := as_coef_term a in
-  do a_coef <- mulnum_ (fst ct) multiply;
-  let a_term := snd ct in
-  do st1 <- fold_res (fun s q =>
-              do term <- a_mul a_term (fst q);
-              x_add_product s (mulnum_ (snd q) a_coef) (mulnum_ a_coef (snd q)) term) db st;
-  if expr_eqb a_term e_one then x_addnum st1 (mulnum_ cb a_coef)
-  else x_dat st1 (mulnum_ cb a_coef) a_term.
-
-Definition x_mul_expand_two (st : xst) (multiply : number) (a b : expr) : res xst :=
-  match a, b with
-  | EAdd ca da, EAdd cb db => x_mul_add_add st multiply ca da cb db
-  | EAdd ca da, _ => x_mul_other_add st multiply b ca da          (* mul_expand_two(b, a) *)
-  | _, EAdd cb db => x_mul_other_add st multiply a cb db
-  | _, _ => do m <- a_mul a b; x_cdat st multiply m
-  end.
-
-(* square_expand(base_dict) *)
-Fixpoint x_square (st : xst) (multiply : number) (bd : adict) : res xst :=
-  match bd with
-  | [] => Ok st
-  | p :: rest =>
-      do sq <- a_pow (fst p) (e_int 2);
-      do c <- (do pp <- num_mul (snd p) (snd p); mulnum_ pp multiply);
-      do st1 <- x_cdat st c sq;
-      do st2 <- fold_res (fun s q =>
-                  do prod <- a_mul (fst q) (fst p);
-                  do c <- (do q2 <- mulnum_ (snd q) (NInt 2); do pq <- mulnum_ (snd p) q2; mulnum_ multiply pq);
-                  x_cdat s c prod) rest st1;
-      x_square st2 multiply rest
-  end.
-
-(* the body of the inner loop of pow_expand for one base entry (base, value) with power > 0 *)
-Definition x_pow_factor (st : number * mdict) (power : N) (base : expr) (value : number)
-  : res (number * mdict) :=
-  let exp := e_int (Z.of_N power) in
-  do st1 <-
-    match base with
-    | ENum (NInt b) => do p <- int_powint b (Z.of_N power); do c <- mulnum_ (fst st) p; Ok (c, snd st)
-    | ESym _ => do d <- mul_dict_add_term (snd st) exp base; Ok (fst st, d)
-    | _ =>
-        do tmp <- a_pow base exp;
-        match tmp with
-        | EMul tc td =>
-            do s <- fold_res (fun s p => a_datn s (snd p) (fst p)) td st;
-            do c <- mulnum_ (fst s) tc; Ok (c, snd s)
-        | ENum tn => do c <- mulnum_ (fst st) tn; Ok (c, snd st)
-        | _ => do et <- as_base_exp tmp; a_datn st (fst et) (snd et)
-        end
-    end;
-  if negb (num_is_one value) then
-    do p <- num_pow value (NInt (Z.of_N power)); do c <- mulnum_ (fst st1) p; Ok (c, snd st1)
-  else Ok st1.
-
-(* for (; power != p.first.end(); ++power, ++i2) *)
-Fixpoint x_pow_factors (st : number * mdict) (powers : vec) (bd : adict) : res (number * mdict) :=
-  match powers, bd with
-  | pw :: ps, (base, value) :: rest =>
-      do st1 <- (if (0 <? pw)%N then x_pow_factor st pw base value else Ok st);
-      x_pow_factors st1 ps rest
-  | [], _ => Ok st
-  | _ :: _, [] => ErrExn EXN_SIGSEGV       (* i2 runs past base_dict.end(): never happens (m = size) *)
-  end.
-
-(* pow_expand(base_dict, n) *)
-Definition x_pow_expand (st : xst) (multiply : number) (bd : adict) (n : N) : res xst :=
-  do r <- multinomial_coefficients (N.of_nat (length bd)) n;
-  fold_res (fun s pc =>
-    do od <- x_pow_factors (NInt 1, []) (fst pc) bd;
-    let term := mul_from_dict (fst od) (snd od) in
-    let coef2 := NInt (snd pc) in
-    match term with
-    | ENum tn => x_addnum s (do mt <- mulnum_ multiply tn; mulnum_ mt coef2)
-    | EMul mc md =>
-        if negb (num_is_one mc) then
-          x_dat s (do c2 <- mulnum_ coef2 mc; mulnum_ multiply c2) (mul_from_dict (NInt 1) md)
-        else x_dat s (mulnum_ multiply coef2) term
-    | _ => x_dat s (mulnum_ multiply coef2) term
-    end) r st.
+Definition real_ops : xops := {|
+  o_mul := a_mul; o_pow := a_pow; o_div := a_div; o_datn := a_datn; o_mdat := mul_dict_add_term;
+  o_mfd := fun c d => Ok (mul_from_dict c d); o_afd := fun c d => Ok (add_from_dict c d);
+  o_mulnum := mulnum_; o_nummul := num_mul; o_numpow := num_pow; o_intpow := int_powint;
+  o_addnum := num_add; o_dat := add_dict_add_term; o_multinomial := multinomial_coefficients |}.
 
 Definition TWO32 : Z := 4294967296.
 
-Fixpoint xvisit (fuel : nat) (deep : bool) (st : xst) (multiply : number) (e : expr) : res xst :=
-  match fuel with
-  | O => ErrFuel
-  | S f =>
-      (* expand(e', deep): a new visitor *)
-      let expand_rec (e' : expr) : res expr :=
-        do s <- xvisit f deep (NInt 0, []) (NInt 1) e'; Ok (add_from_dict (fst s) (snd s)) in
-      let expand_if_deep (e' : expr) : res expr := if deep then expand_rec e' else Ok e' in
-      match e with
-      | ENum n => x_addnum st (mulnum_ multiply n)
-      | EAdd c d =>
-          do st0 <- x_addnum st (mulnum_ multiply c);
-          fold_res (fun s p =>
-            do m <- mulnum_ multiply (snd p);
-            if deep then xvisit f deep s m (fst p) else x_dat s (Ok m) (fst p)) d st0
-      | EMul c d =>
-          if forallb (fun p => match fst p with ESym _ => true | _ => false end) d then x_cdat st multiply e
-          else
-            match d with
-            | [] => x_cdat st multiply e
-            | (k, v) :: _ =>
-                (* Mul::as_two_terms *)
-                do a <- a_pow k v;
-                let b := mul_from_dict c (merase k d) in
-                do a' <- expand_if_deep a;
-                do b' <- expand_if_deep b;
-                x_mul_expand_two st multiply a' b'
-            end
-      | EPow base ex =>
-          do base' <- expand_if_deep base;
-          match ex, base' with
-          | ENum (NInt n), EAdd bc bdict =>
-              if n <? 0 then
-                do p <- a_pow base' (e_int (- n));
-                do p' <- expand_if_deep p;
-                do q <- a_div e_one p';
-                x_cdat st multiply q
-              else if TWO32 <=? n then ErrExn EXN_SYMENGINE
-              else
-                do '(st1, bd) <-
-                  (if negb (num_is_zero bc) then Ok (st, bdict ++ [(ENum bc, NInt 1)])
-                   else do s <- x_addnum st (Ok bc); Ok (s, bdict));
-                if n =? 2 then x_square st1 multiply bd
-                else x_pow_expand st1 multiply bd (Z.to_N n)
-          | _, _ =>
-              if negb (expr_eqb base' base) then do p <- a_pow base' ex; x_cdat st multiply p
-              else x_dat st (Ok multiply) e
+Section Visitor.
+  Variable Op : xops.
+
+  (* iaddnum(outArg(coeff), v) *)
+  Definition x_addnum (st : xst) (v : res number) : res xst :=
+    do x <- v; do c <- o_addnum Op (fst st) x; Ok (c, snd st).
+  (* Add::dict_add_term(d_, c, t) *)
+  Definition x_dat (st : xst) (c : res number) (t : expr) : res xst :=
+    do x <- c; do d <- o_dat Op (snd st) x t; Ok (fst st, d).
+
+  (* _coef_dict_add_term(c, term) *)
+  Definition x_cdat (st : xst) (c : number) (term : expr) : res xst :=
+    match term with
+    | ENum n => x_addnum st (o_mulnum Op c n)
+    | EAdd tc td =>
+        do st' <- fold_res (fun s q => x_dat s (o_mulnum Op (snd q) c) (fst q)) td st;
+        x_addnum st' (o_mulnum Op tc c)
+    | _ =>
+        let ct := as_coef_term term in
+        x_dat st (o_mulnum Op c (fst ct)) (snd ct)
+    end.
+
+  (* "if (is_a_Number( *term )) ... else { if (is_a<Mul>( *term ) && !coef->is_one()) tidy up ... }":
+     [cn] is the coefficient used in the Number and tidy branches, [cd] the one of the plain branch
+     (the C++ multiplies the same numbers in a different order) *)
+  Definition x_add_product (st : xst) (cn cd : res number) (term : expr) : res xst :=
+    match term with
+    | ENum tn => x_addnum st (do c <- cn; o_mulnum Op c tn)
+    | EMul mc md =>
+        if negb (num_is_one mc) then
+          do t <- o_mfd Op (NInt 1) md; x_dat st (do c <- cn; o_mulnum Op c mc) t
+        else do c <- cd; x_cdat st c term
+    | _ => do c <- cd; x_cdat st c term    (* _coef_dict_add_term: the term may be an Add (fix-3) *)
+    end.
+
+  (* mul_expand_two(a, b) with both operands Add *)
+  Definition x_mul_add_add (st : xst) (multiply : number) (ca : number) (da : adict) (cb : number) (db : adict)
+    : res xst :=
+    do st0 <- x_addnum st (do cc <- o_mulnum Op ca cb; o_mulnum Op multiply cc);
+    do st1 <- fold_res (fun s p =>
+                do temp <- o_mulnum Op (snd p) multiply;
+                do s' <- fold_res (fun s q =>
+                           do term <- o_mul Op (fst p) (fst q);
+                           let tq := o_mulnum Op temp (snd q) in
+                           x_add_product s tq tq term) db s;
+                x_dat s' (o_mulnum Op cb temp) (fst p)) da st0;
+    do temp <- o_mulnum Op ca multiply;
+    fold_res (fun s q => x_dat s (o_mulnum Op temp (snd q)) (fst q)) db st1.
+
+  (* mul_expand_two(a, b) with b an Add and a not *)
+  Definition x_mul_other_add (st : xst) (multiply : number) (a : expr) (cb : number) (db : adict) : res xst :=
+    let ct := as_coef_term a in
+    do a_coef <- o_mulnum Op (fst ct) multiply;
+    let a_term := snd ct in
+    do st1 <- fold_res (fun s q =>
+                do term <- o_mul Op a_term (fst q);
+                x_add_product s (o_mulnum Op (snd q) a_coef) (o_mulnum Op a_coef (snd q)) term) db st;
+    if expr_eqb a_term e_one then x_addnum st1 (o_mulnum Op cb a_coef)
+    else x_dat st1 (o_mulnum Op cb a_coef) a_term.
+
+  Definition x_mul_expand_two (st : xst) (multiply : number) (a b : expr) : res xst :=
+    match a, b with
+    | EAdd ca da, EAdd cb db => x_mul_add_add st multiply ca da cb db
+    | EAdd ca da, _ => x_mul_other_add st multiply b ca da          (* mul_expand_two(b, a) *)
+    | _, EAdd cb db => x_mul_other_add st multiply a cb db
+    | _, _ => do m <- o_mul Op a b; x_cdat st multiply m
+    end.
+
+  (* square_expand(base_dict) *)
+  Fixpoint x_square (st : xst) (multiply : number) (bd : adict) : res xst :=
+    match bd with
+    | [] => Ok st
+    | p :: rest =>
+        do sq <- o_pow Op (fst p) (e_int 2);
+        do c <- (do pp <- o_nummul Op (snd p) (snd p); o_mulnum Op pp multiply);
+        do st1 <- x_cdat st c sq;
+        do st2 <- fold_res (fun s q =>
+                    do prod <- o_mul Op (fst q) (fst p);
+                    do c <- (do q2 <- o_mulnum Op (snd q) (NInt 2); do pq <- o_mulnum Op (snd p) q2;
+                             o_mulnum Op multiply pq);
+                    x_cdat s c prod) rest st1;
+        x_square st2 multiply rest
+    end.
+
+  (* the body of the inner loop of pow_expand for one base entry (base, value) with power > 0 *)
+  Definition x_pow_factor (st : number * mdict) (power : N) (base : expr) (value : number)
+    : res (number * mdict) :=
+    let exp := e_int (Z.of_N power) in
+    do st1 <-
+      match base with
+      | ENum (NInt b) => do p <- o_intpow Op b (Z.of_N power); do c <- o_mulnum Op (fst st) p; Ok (c, snd st)
+      | ESym _ => do d <- o_mdat Op (snd st) exp base; Ok (fst st, d)
+      | _ =>
+          do tmp <- o_pow Op base exp;
+          match tmp with
+          | EMul tc td =>
+              do s <- fold_res (fun s p => o_datn Op s (snd p) (fst p)) td st;
+              do c <- o_mulnum Op (fst s) tc; Ok (c, snd s)
+          | ENum tn => do c <- o_mulnum Op (fst st) tn; Ok (c, snd st)
+          | _ => do et <- as_base_exp tmp; o_datn Op st (fst et) (snd et)
           end
-      | _ => x_dat st (Ok multiply) e
-      end
-  end.
+      end;
+    if negb (num_is_one value) then
+      do p <- o_numpow Op value (NInt (Z.of_N power)); do c <- o_mulnum Op (fst st1) p; Ok (c, snd st1)
+    else Ok st1.
+
+  (* for (; power != p.first.end(); ++power, ++i2) *)
+  Fixpoint x_pow_factors (st : number * mdict) (powers : vec) (bd : adict) : res (number * mdict) :=
+    match powers, bd with
+    | pw :: ps, (base, value) :: rest =>
+        do st1 <- (if (0 <? pw)%N then x_pow_factor st pw base value else Ok st);
+        x_pow_factors st1 ps rest
+    | [], _ => Ok st
+    | _ :: _, [] => ErrExn EXN_SIGSEGV       (* i2 runs past base_dict.end(): never happens (m = size) *)
+    end.
+
+  (* pow_expand(base_dict, n) *)
+  Definition x_pow_expand (st : xst) (multiply : number) (bd : adict) (n : N) : res xst :=
+    do r <- o_multinomial Op (N.of_nat (length bd)) n;
+    fold_res (fun s pc =>
+      do od <- x_pow_factors (NInt 1, []) (fst pc) bd;
+      do term <- o_mfd Op (fst od) (snd od);
+      let coef2 := NInt (snd pc) in
+      match term with
+      | ENum tn => x_addnum s (do mt <- o_mulnum Op multiply tn; o_mulnum Op mt coef2)
+      | EMul mc md =>
+          if negb (num_is_one mc) then
+            do t <- o_mfd Op (NInt 1) md;
+            x_dat s (do c2 <- o_mulnum Op coef2 mc; o_mulnum Op multiply c2) t
+          else x_dat s (o_mulnum Op multiply coef2) term
+      | _ => x_dat s (o_mulnum Op multiply coef2) term
+      end) r st.
+
+  Fixpoint xvisit (fuel : nat) (deep : bool) (st : xst) (multiply : number) (e : expr) : res xst :=
+    match fuel with
+    | O => ErrFuel
+    | S f =>
+        (* expand(e', deep): a new visitor *)
+        let expand_rec (e' : expr) : res expr :=
+          do s <- xvisit f deep (NInt 0, []) (NInt 1) e'; o_afd Op (fst s) (snd s) in
+        let expand_if_deep (e' : expr) : res expr := if deep then expand_rec e' else Ok e' in
+        match e with
+        | ENum n => x_addnum st (o_mulnum Op multiply n)
+        | EAdd c d =>
+            do st0 <- x_addnum st (o_mulnum Op multiply c);
+            fold_res (fun s p =>
+              do m <- o_mulnum Op multiply (snd p);
+              if deep then xvisit f deep s m (fst p) else x_dat s (Ok m) (fst p)) d st0
+        | EMul c d =>
+            if forallb (fun p => match fst p with ESym _ => true | _ => false end) d then x_cdat st multiply e
+            else
+              match d with
+              | [] => x_cdat st multiply e
+              | (k, v) :: _ =>
+                  (* Mul::as_two_terms *)
+                  do a <- o_pow Op k v;
+                  do b <- o_mfd Op c (merase k d);
+                  do a' <- expand_if_deep a;
+                  do b' <- expand_if_deep b;
+                  x_mul_expand_two st multiply a' b'
+              end
+        | EPow base ex =>
+            do base' <- expand_if_deep base;
+            match ex, base' with
+            | ENum (NInt n), EAdd bc bdict =>
+                if n <? 0 then
+                  do p <- o_pow Op base' (e_int (- n));
+                  do p' <- expand_if_deep p;
+                  do q <- o_div Op e_one p';
+                  x_cdat st multiply q
+                else if TWO32 <=? n then ErrExn EXN_SYMENGINE
+                else
+                  do '(st1, bd) <-
+                    (if negb (num_is_zero bc) then Ok (st, bdict ++ [(ENum bc, NInt 1)])
+                     else do s <- x_addnum st (Ok bc); Ok (s, bdict));
+                  if n =? 2 then x_square st1 multiply bd
+                  else x_pow_expand st1 multiply bd (Z.to_N n)
+            | _, _ =>
+                if negb (expr_eqb base' base) then do p <- o_pow Op base' ex; x_cdat st multiply p
+                else x_dat st (Ok multiply) e
+            end
+        | _ => x_dat st (Ok multiply) e
+        end
+    end.
+
+  (* expand(e, deep) *)
+  Definition expand_at (fuel : nat) (deep : bool) (e : expr) : res expr :=
+    do s <- xvisit fuel deep (NInt 0, []) (NInt 1) e; o_afd Op (fst s) (snd s).
+End Visitor.
 
 Definition expand_fuel (e : expr) : nat := (6 * size e + 60)%nat.
-
-(* expand(e, deep) *)
-Definition expand_at (fuel : nat) (deep : bool) (e : expr) : res expr :=
-  do s <- xvisit fuel deep (NInt 0, []) (NInt 1) e; Ok (add_from_dict (fst s) (snd s)).
-Definition expand (deep : bool) (e : expr) : res expr := expand_at (expand_fuel e) deep e.
+Definition expand (deep : bool) (e : expr) : res expr := expand_at real_ops (expand_fuel e) deep e.
